@@ -197,14 +197,20 @@ pub fn dispatch(kind: &str, v: &Value) -> Option<Outcome> {
     }
 }
 
-pub fn run(ctx: &Ctx) -> i32 {
-    let mut st = ctx.run_replays(&dispatch);
+pub fn campaigns(ctx: &Ctx) -> Stats {
+    let mut st = Stats::default();
     let t = ctx.tier;
     let (len, total) = t.pick((20usize, 24000u64), (70, 300000));
     for (name, exact) in [("exact-histories", true), ("mixed-histories", false)] {
         let cfg = cfg_for(t, exact);
         st.merge(ctx.run_prop(name, total / 2, move || recipe_strategy(len), move |r| Some(Case10 { hist: elaborate(&cfg, r) })));
     }
+    st
+}
+
+pub fn run(ctx: &Ctx) -> i32 {
+    let mut st = ctx.run_replays(&dispatch);
+    st.merge(campaigns(ctx));
     if ctx.tier == Tier::Thorough {
         st.merge(ctx.run_fuzz(10000, ctx.threads, &dispatch));
     }
